@@ -222,6 +222,7 @@ def rule_E6(F, R):
         t = lib.thir.get(n)
         if t is None: continue
         if is_derived_fn(lib, n): continue
+        fn_ok = True
         for e in walk(t['body']):
             bad = None
             if e['k'] == 'StaticRef':
@@ -242,10 +243,11 @@ def rule_E6(F, R):
                     R.count('E6:RefCell-uses')
                     if fld not in ALLOWED_CELLS and cn.split('::')[-1] != 'new':
                         bad = 'RefCell state other than the unique table / definitions: ' + pp(e)[:80]
-            R.obligation(bad is None, None)
             if bad:
+                fn_ok = False
                 R.violation('%s / E6 / %s' % (n, bad.split(' ')[0] + ' ' + bad.split(' ')[-1][:60]), 'E6',
                             'operation result may depend on hidden state: ' + bad, e['loc'])
+        R.obligation(fn_ok, 'E6 ' + n)
 
 def rule_E5_events(R, results):
     """no fresh node allocation inside a BDDEnv operation (engine S events): results come from the table"""
